@@ -128,6 +128,8 @@ func Models() []Model {
 	for _, q := range translatorShapes {
 		texts = append(texts, fuzzInput{text: q, class: "translator-shape"})
 	}
+	// grammar corpus (VH_GRAMMAR): every production in every position, pairs in one rotating position
+	texts = append(texts, grammarTexts(1, envInt("VH_GRAMMAR_STRIDE", 1))...)
 	var out []Model
 	seen := map[string]bool{}
 	for _, in := range texts {
